@@ -422,6 +422,79 @@ def r11_metric_table(ctx, R='C18.R11'):
       ctx.check(R, abs(F(got) - wantr) <= F(1, 10 ** 9), mdr.node, mdr, f'median_diff_ratio({a}, {b}, eps=0.001) = {float(got):.6g}',
                 f'the median of |a - b| / (|b| + eps) is {float(wantr):.6g}: the SECOND argument (the reference) normalises')
 
+
+def r12_subgraph_reads(ctx, R='C18.R12'):
+  """The helpers that list / read the tensors of ONE subgraph are run on a stand-in interpreter whose two subgraphs
+  number their tensors differently (index 0 is an activation in subgraph 0 and a constant in subgraph 1): the names,
+  details and contents returned for subgraph s are those of subgraph s. (Round 18: get_constant_tensor_names probed
+  every tensor index in subgraph 0 - on the only two-signature fixture both subgraphs have the same layout.)"""
+  from sa import absint  # pylint: disable=g-import-not-at-top
+  from sa.consteval import Ext, Obj  # pylint: disable=g-import-not-at-top
+  from sa.ndarr import NdArr  # pylint: disable=g-import-not-at-top
+  rs = ctx.rule(R, 'constant names / details / contents of subgraph s come from subgraph s (stand-in interpreter, two layouts)', floor=3)
+  noq = {'scales': [], 'zero_points': [], 'quantized_dimension': 0}
+  # (name, kind, element count); kind: act = not readable before allocation (ValueError), const, obj = string tensor
+  LAYOUT = {
+      0: [('a0', 'act', 4), ('w0', 'const', 4), ('s0', 'const', 1), ('b0', 'act', 2)],
+      1: [('w1', 'const', 6), ('a1', 'act', 4), ('', 'const', 3), ('t1', 'obj', 2), ('b1', 'act', 2), ('s1', 'const', 1)],
+  }
+  reads = []
+
+  def details(args, kwargs, kind=None):
+    sg = args[0] if args else kwargs.get('subgraph_index', 0)
+    return [{'name': n, 'index': i, 'dtype': Ext('np.object_' if k == 'obj' else 'np.float32'), 'quantization_parameters': dict(noq)}
+            for i, (n, k, _) in enumerate(LAYOUT[sg])]
+
+  def get_tensor(args, kwargs, kind=None):
+    idx = args[0]
+    sg = args[1] if len(args) > 1 else kwargs.get('subgraph_index', 0)
+    reads.append((idx, sg))
+    if idx >= len(LAYOUT[sg]):
+      raise absint._Raise('ValueError', 'tensor index out of range')  # pylint: disable=protected-access
+    n, k, size = LAYOUT[sg][idx]
+    if k == 'act':
+      raise absint._Raise('ValueError', 'Tensor data is null. Run allocate_tensors() first')  # pylint: disable=protected-access
+    return NdArr.from_nested([sg * 100 + idx * 10 + j for j in range(size)])
+  interp = Obj('x:Interpreter', {'get_tensor_details': shared._StandIn(details, 'd'), 'get_tensor': shared._StandIn(get_tensor, 'g')})  # pylint: disable=protected-access
+  it = absint.Interp(ctx.repo, ctx.ev, hooks={f'{IU}:create_tfl_interpreter': lambda a, k: interp, 'create_tfl_interpreter': lambda a, k: interp})
+  gc = ctx.repo.func(f'{IU}:get_constant_tensor_names')
+  gd = ctx.repo.func(f'{IU}:get_tensor_name_to_details_map')
+  gm = ctx.repo.func(f'{IU}:get_tensor_name_to_content_map')
+  ctx.instance(R, 3)
+  rs.exhaustive = True
+
+  def run1(f, args, label):
+    o = it.outcomes(f, args, copy_args=False)
+    if len(o) != 1 or o[0].kind != 'return':
+      ctx.check(R, False, f.node, f, label, f'not decided: {[x.short()[:120] for x in o]}')
+      return None
+    return o[0].value
+  for sg in (0, 1):
+    for min_size in (1, 2):
+      want = [n for n, k, size in LAYOUT[sg] if n and k == 'const' and size >= min_size]   # unnamed tensors: either way
+      for args, how in (([b'model', sg, min_size], 'positional'),):
+        del reads[:]
+        got = run1(gc, args, f'get_constant_tensor_names(subgraph {sg}, min size {min_size})')
+        if got is None:
+          continue
+        ctx.check(R, isinstance(got, list) and sorted(n for n in got if n) == sorted(want), gc.node, gc, f'subgraph {sg}, min size {min_size}: {got}',
+                  f'the constants of subgraph {sg} with at least {min_size} element(s) are {want}; tensors read (index, subgraph): {reads[:6]}')
+    want_names = [n for n, _, _ in LAYOUT[sg] if n]
+    got = run1(gd, [interp, sg], f'get_tensor_name_to_details_map(subgraph {sg})')
+    if got is not None:
+      ok = isinstance(got, dict) and sorted(got) == sorted(want_names) and all(got[n]['index'] == [x[0] for x in LAYOUT[sg]].index(n) for n in want_names)
+      ctx.check(R, ok, gd.node, gd, f'subgraph {sg}: {sorted(got) if isinstance(got, dict) else got!r}', f'the named tensors of subgraph {sg} are {want_names}, each with its own details')
+  # contents: only readable tensors in the stand-in (a layout of constants), one per name, read from the subgraph asked for
+  LAYOUT[0] = [('w0', 'const', 4), ('s0', 'const', 1)]
+  LAYOUT[1] = [('s1', 'const', 1), ('', 'const', 2), ('w1', 'const', 3)]
+  for sg in (0, 1):
+    got = run1(gm, [interp, sg], f'get_tensor_name_to_content_map(subgraph {sg})')
+    if got is None:
+      continue
+    want = {n: [sg * 100 + i * 10 + j for j in range(size)] for i, (n, _, size) in enumerate(LAYOUT[sg]) if n}
+    shown = {n: (list(v.data) if isinstance(v, NdArr) else repr(v)) for n, v in got.items()} if isinstance(got, dict) else got
+    ctx.check(R, shown == want, gm.node, gm, f'subgraph {sg}: {shown}', f'the contents of subgraph {sg} are {want}')
+
 def run(ctx):
   f, fam, results = r1_family(ctx)
   r2_pop_partition(ctx)
@@ -430,6 +503,7 @@ def run(ctx):
   r7_metrics(ctx)
   r9_validation_simulation(ctx)
   r11_metric_table(ctx)
+  r12_subgraph_reads(ctx)
   from sa.rules import c10  # pylint: disable=g-import-not-at-top
   c10.r9_signature_subgraph_table(ctx, 'C18.R10')
   shared.rule_single_traversal(ctx, 'C18.R8', ['quantizer:Quantizer.validate', 'model_validator:compare_model'])
